@@ -155,6 +155,17 @@ def run(facts, tr, rep):
                         t = crate_.types[f["ty"]]["s"]
                         if "Option<" in t and "Fn(&" in t and "-> bool" in t:
                             return True
+                        # ... or a private enum shaped like that Option (`enum ErrorFilter { Any, Matching(predicate) }`)
+                        fd = crate_.types[f["ty"]].get("def")
+                        fa = facts.adt(fd) if fd else None
+                        if fa is not None and len(fa.get("variants", [])) == 2:
+                            crf = [c_ for c_ in facts.crates.values() if fd in c_.adts][0]
+                            pays = [v for v in fa["variants"] if len(v["fields"]) == 1]
+                            units = [v for v in fa["variants"] if not v["fields"]]
+                            if len(pays) == 1 and len(units) == 1:
+                                pt = crf.types[pays[0]["fields"][0]["ty"]]["s"]
+                                if "Fn(&" in pt and "-> bool" in pt:
+                                    return True
         return False
 
     def verdict_leaves(node, depth=0):
@@ -223,7 +234,7 @@ def run(facts, tr, rep):
                 nd_ = peel(nd_)
                 if nd_[0] == "const" and nd_[1] == "true" and len(vs) > 1:
                     des = dominating_edges(tr, b, bb_)
-                    if not any(x["kind"] == "enum" and x["label"] == "None" and pred_field(x["node"]) for x in des):
+                    if not any(optionlike_role(facts, b, x) == "none" and pred_field(x["node"]) for x in des):
                         ok_all = False
         if saw:
             holds = (e["label"] == "true") != neg
